@@ -6,7 +6,9 @@ import (
 	"strconv"
 	"strings"
 
+	"github.com/jsightapi/jsight-schema-go-library/zzverif/gen"
 	"github.com/jsightapi/jsight-schema-go-library/zzverif/om"
+	"github.com/jsightapi/jsight-schema-go-library/zzverif/v"
 )
 
 // ---- adapter for ASTNodes
@@ -151,7 +153,34 @@ func ZZC19RuleASTNodesMake() { om.One(zzRule{MakeRuleASTNodes(2)}, false) }
 func ZZC19ASTNodesJSON()     { om.One(zzAST{&ASTNodes{}}, true) }
 func ZZC19RuleASTNodesJSON() { om.One(zzRule{&RuleASTNodes{}}, true) }
 
+// ZZC19KeyJSON: the JSON text of a map is well-formed JSON whatever bytes its keys hold (control
+// characters, DEL, quotes, invalid UTF-8): one key of 1..keylen arbitrary bytes, on both public maps.
+func ZZC19KeyJSON() {
+	n := v.Choose(1, v.Param("keylen", 1))
+	k := string(v.Bytes(n))
+	v.Observe("key", k)
+	var js []byte
+	var err error
+	if v.Choose(0, 1) == 0 {
+		m := &ASTNodes{}
+		m.Set(k, ASTNode{Value: "x"})
+		js, err = m.MarshalJSON()
+	} else {
+		m := &RuleASTNodes{}
+		m.Set(k, RuleASTNode{Value: "x"})
+		js, err = m.MarshalJSON()
+	}
+	v.Assert(err == nil, "C19/json-error")
+	if err != nil {
+		return
+	}
+	v.Observe("json", js)
+	v.Assert(gen.JSONText(js), "C19/json-text-is-not-json")
+	v.Reach("C19/key-json")
+}
+
 var ZZHarnesses = map[string]func(){
+	"ZZC19KeyJSON":          ZZC19KeyJSON,
 	"ZZC19ASTNodes":         ZZC19ASTNodes,
 	"ZZC19RuleASTNodes":     ZZC19RuleASTNodes,
 	"ZZC19RuleASTNodesMake": ZZC19RuleASTNodesMake,
